@@ -329,6 +329,7 @@ func (st *State) recordDef(t *Term) {
 
 func (st *State) assume(t *Term) {
 	curBounds = st.bnd
+	orig := t
 	t = st.norm(t)
 	if t.IsTrue() {
 		return
@@ -347,6 +348,9 @@ func (st *State) assume(t *Term) {
 	st.pc = append(st.pc, t)
 	if t.IsFalse() || st.pcSet[Not(t).String()] {
 		st.dead = true
+		if os.Getenv("GOVC_DEBUG") != "" {
+			fmt.Fprintf(os.Stderr, "dead: %s after %v\n", orig, st.trace)
+		}
 	}
 	st.recordDef(t)
 }
